@@ -113,6 +113,14 @@ impl World {
         self.0.lock().unwrap_or_else(|e| e.into_inner())
     }
 
+    pub fn set_behaviour(&self, behaviour: &[Beh]) {
+        let mut w = self.lock();
+        w.behaviour.clear();
+        for beh in behaviour {
+            w.behaviour.insert((beh.task, beh.call), beh.clone());
+        }
+    }
+
     pub fn set_current(&self, cur: Option<(usize, u32)>) {
         self.lock().current = cur;
     }
